@@ -4,6 +4,7 @@ package c12
 
 import (
 	"fmt"
+	"math"
 
 	"pgregory.net/rapid"
 	"pipelined.dev/signal"
@@ -57,16 +58,21 @@ type Sim struct {
 	stamp    int
 	res      *kit.Result
 	zero     kit.Val
+	isFloat  bool
 }
 
 func NewSim(t string, maxViews int, res *kit.Result) *Sim {
-	s := &Sim{T: t, MaxViews: maxViews, res: res}
+	s := &Sim{T: t, MaxViews: maxViews, res: res, isFloat: kit.Info(t).Kind == kit.Float}
 	s.zero = kit.AllocAny(t, signal.Allocator{Channels: 1, Length: 1, Capacity: 1}).Get(0)
 	return s
 }
 
 func (s *Sim) fresh() kit.Val {
 	s.stamp++
+	if s.isFloat && s.stamp%5 == 3 {
+		// -0.0 compares equal to 0 but is a different sample; a plain Go slice copies it bit for bit
+		return kit.FV(math.Copysign(0, -1))
+	}
 	return kit.IV(int64(1 + s.stamp%120))
 }
 
